@@ -5,10 +5,12 @@
 //!
 //!   setup <ndocs> <flushed 0|1> <pending-update 0|1>
 //!   op <api>             spawn the future of an API call (not polled yet)          → slot index
+//!   call <api>           op + run
 //!   poll <slot>          poll it once            run <slot>   poll it to completion
 //!   drop <slot>          drop the future (cancellation)
 //!   setro <0|1>          Collection::set_read_only        dbro <0|1>   AndaDB::set_read_only
 //!   fault <suffix>       the next PUT whose path ends with <suffix> fails
+//!   settle               poll every live future until it completes or parks
 //!   sweep                call every guarded API, one after the other, on the retained Arc<Collection>
 //!   reopen               drop everything, reopen the collection, check ids = stored docs = index, add accepted
 //!
@@ -97,7 +99,7 @@ fn model_kind(api: &str) -> &'static str {
 }
 
 fn is_guarded(api: &str) -> bool {
-    !matches!(model_kind(api), "close" | "drop")
+    !matches!(model_kind(api), "close" | "drop" | "?")
 }
 
 struct Slot {
@@ -107,8 +109,11 @@ struct Slot {
     result: Option<String>,
     muts: usize,
     polls: usize,
-    /// the handle refused admission at every moment since the future was first polled
+    /// the handle refused admission at every observation since the last moment at which the future had not
+    /// yet reached the backend (= was not yet admitted: queued on the gate, or not started)
     always_blocked: bool,
+    /// the future has started at least one backend call
+    progressed: bool,
     dropped: bool,
 }
 
@@ -218,8 +223,12 @@ impl World {
     fn after_event(&mut self) {
         let blocked = self.blocked_now();
         for s in self.slots.iter_mut() {
-            if s.fut.is_some() && s.polls > 0 && !blocked {
-                s.always_blocked = false;
+            if s.fut.is_some() {
+                if !s.progressed {
+                    s.always_blocked = blocked;
+                } else if !blocked {
+                    s.always_blocked = false;
+                }
             }
         }
         let st = self.coll.state();
@@ -250,29 +259,37 @@ impl World {
             "reconcile" => Box::pin(async move { c.reconcile_storage().await.map(|_| ()) }),
             "delete_collection" => Box::pin(async move { db.delete_collection(COLL).await }),
             "close_collection" => Box::pin(async move { db.close_collection(COLL).await }),
+            // the `&mut self` index methods are only callable inside the open / create callback, before a handle exists
+            "open_cb" => Box::pin(async move {
+                db.open_collection(COLL.to_string(), async |c| {
+                    c.remove_btree_index(&["a"]).await?;
+                    c.create_btree_index(&["a"]).await?;
+                    c.remove_bm25_index(&["txt"]).await?;
+                    c.create_bm25_index(&["txt"]).await?;
+                    Ok(())
+                })
+                .await
+                .map(|_| ())
+            }),
+            // the same without any cancellation: the callback itself fails after create + remove
+            "open_cb_fail" => Box::pin(async move {
+                db.open_collection(COLL.to_string(), async |c| {
+                    c.remove_btree_index(&["a"]).await?;
+                    c.create_btree_index(&["a"]).await?;
+                    c.remove_bm25_index(&["txt"]).await?;
+                    Err(DBError::Generic { name: "cb".into(), source: "callback gives up".into() })
+                })
+                .await
+                .map(|_| ())
+            }),
             _ => return Err(format!("unknown api {api}")),
         })
     }
 
     fn spawn(&mut self, api: &str) -> Result<usize, String> {
         let fut = self.make_future(api)?;
-        // database-level short cuts that never touch the handle are outside the handle model
-        let db_ro = self.db.is_read_only();
-        let modelled = match api {
-            "delete_collection" => !db_ro && self.registered,
-            "close_collection" => self.registered,
-            _ => true,
-        };
-        let model_tid = if modelled {
-            let t = self.model_next_tid;
-            self.model_next_tid += 1;
-            self.lines.push((format!("spawn {}", model_kind(api)), format!("t{t}")));
-            Some(t)
-        } else {
-            None
-        };
         self.hit(&format!("op:{}", api.split(':').next().unwrap()));
-        self.slots.push(Slot { api: api.into(), model_tid, fut: Some(fut), result: None, muts: 0, polls: 0, always_blocked: true, dropped: false });
+        self.slots.push(Slot { api: api.into(), model_tid: None, fut: Some(fut), result: None, muts: 0, polls: 0, always_blocked: true, progressed: false, dropped: false });
         Ok(self.slots.len() - 1)
     }
 
@@ -305,19 +322,37 @@ impl World {
         (acts, muts, outside)
     }
 
-    async fn poll(&mut self, i: usize) -> Result<bool, String> {
+    /// returns (finished, made backend progress)
+    async fn poll(&mut self, i: usize) -> Result<(bool, bool), String> {
         if i >= self.slots.len() {
             return Err(format!("no slot {i}"));
         }
         if self.slots[i].fut.is_none() {
-            return Ok(true);
+            return Ok((true, false));
         }
         let state_before = self.coll.state();
         let blocked_before = self.blocked_now();
         let started0 = self.store.trace.started.load(Ordering::SeqCst);
         let started_in0 = self.store.trace.started_in.load(Ordering::SeqCst);
-        if self.slots[i].polls == 0 {
+        if !self.slots[i].progressed {
             self.slots[i].always_blocked = blocked_before;
+        }
+        if self.slots[i].polls == 0 {
+            // the model thread starts with the first poll. Database-level short cuts that never touch the
+            // handle (db read-only refusal of delete_collection, an unregistered name) are outside the handle model.
+            let api = self.slots[i].api.clone();
+            let modelled = match api.as_str() {
+                "delete_collection" => !self.db.is_read_only() && self.registered,
+                "close_collection" => self.registered,
+                "open_cb" | "open_cb_fail" => false,
+                _ => true,
+            };
+            if modelled {
+                let t = self.model_next_tid;
+                self.model_next_tid += 1;
+                self.lines.push((format!("spawn {}", model_kind(&api)), format!("t{t}")));
+                self.slots[i].model_tid = Some(t);
+            }
         } else if !blocked_before {
             self.slots[i].always_blocked = false;
         }
@@ -329,15 +364,22 @@ impl World {
             futures::poll!(fut.as_mut())
         };
         self.store.trace.pending_once.store(false, Ordering::SeqCst);
+        if std::env::var("VH_C06_DUMP").is_ok() {
+            let recs: Vec<Rec> = { self.store.trace.log.lock().unwrap()[self.log_pos..].to_vec() };
+            eprintln!("    [slot {i} {} poll {}] {:?}", self.slots[i].api, self.slots[i].polls, recs.iter().map(|r| format!("{:?}:{}", r.kind, r.path)).collect::<Vec<_>>());
+        }
         let (acts, muts, outside) = self.take_acts();
         let started = self.store.trace.started.load(Ordering::SeqCst) - started0;
         let started_in = self.store.trace.started_in.load(Ordering::SeqCst) - started_in0;
         let flag = if started_in > 0 || !acts.is_empty() { "g" } else if started > 0 || outside { "o" } else { "b" };
+        if started > 0 || !acts.is_empty() {
+            self.slots[i].progressed = true;
+        }
         self.slots[i].muts += muts;
         self.total_muts += muts;
         let api = self.slots[i].api.clone();
         // ---- oracle: silence once CLOSED / DELETED
-        if muts > 0 {
+        if muts > 0 && !api.starts_with("open_cb") {
             let is_delete = api == "delete_collection";
             if state_before == CollectionState::Deleted || (state_before == CollectionState::Closed && !is_delete) {
                 self.fail(
@@ -389,20 +431,42 @@ impl World {
             }
         }
         if let Some(t) = self.slots[i].model_tid {
-            let ans = self.answer(&status, muts).await;
-            self.lines.push((format!("poll {t} {flag} {} {fin}", if acts.is_empty() { "-".to_string() } else { acts.join(",") }), ans));
+            let mut acts = acts.clone();
+            // a non-flush mutator body that failed and left the handle poisoned called `self.poison` itself
+            // (unknown-outcome storage failure in add / update / remove): the model cannot foresee the backend's answer
+            if fin == "err" && matches!(model_kind(&api), "mut-s" | "mut-x") && state_before != CollectionState::Poisoned && self.coll.state() == CollectionState::Poisoned {
+                acts.push("x".into());
+            }
+            if api == "delete_collection" && fin == "err" && flag != "g" && self.coll.state() != CollectionState::Deleted {
+                // the database-level part failed (flush_metadata) before drop_data was reached: for the handle this is
+                // a dropper abandoned after begin_delete
+                let ans = self.answer("dropped", 0).await;
+                self.lines.push((format!("drop {t}"), ans));
+            } else {
+                let ans = self.answer(&status, muts).await;
+                self.lines.push((format!("poll {t} {flag} {} {fin}", if acts.is_empty() { "-".to_string() } else { acts.join(",") }), ans));
+            }
+        } else if muts > 0 {
+            // not a call on the handle (open callback, unregistered delete): the model only learns what changed in the store
+            let w: Vec<String> = acts.iter().filter(|a| *a != "r").cloned().collect();
+            let ans = self.answer("ext", 0).await;
+            self.lines.push((format!("ext {}", w.join(",")), ans));
         }
         self.after_event();
-        Ok(fin != "p")
+        Ok((fin != "p", flag != "b"))
     }
 
     async fn run(&mut self, i: usize) -> Result<(), String> {
         for _ in 0..400 {
-            if self.poll(i).await? {
+            let (fin, progress) = self.poll(i).await?;
+            if fin {
+                return Ok(());
+            }
+            if !progress {
+                // parked behind another live future (gate / name lock / per-document lock): legitimate
                 return Ok(());
             }
         }
-        // not finishing is legitimate only when it waits for another live future (gate / name lock)
         Ok(())
     }
 
@@ -485,6 +549,8 @@ impl World {
 
     /// Everything is dropped, the collection is reopened through the same database.
     async fn reopen(&mut self) -> Result<(), String> {
+        // an injected fault that the case did not consume must not hit the recovery itself
+        *self.store.trace.fail_put_suffix.lock().unwrap() = None;
         for i in 0..self.slots.len() {
             self.drop_slot(i).await?;
         }
@@ -492,6 +558,10 @@ impl World {
             self.dbro(false).await;
         }
         let st = self.coll.state();
+        if st == CollectionState::Active && self.coll.stats().read_only {
+            // user-level read-only on a live handle is reversible (open_collection returns this same handle)
+            self.setro(false).await;
+        }
         if st == CollectionState::Deleting && !self.delete_returned_ok {
             // a cancelled delete: a retry takes over (tombstone + DELETING handle are still registered)
             let r = self.db.delete_collection(COLL).await;
@@ -515,7 +585,15 @@ impl World {
             self.hit("reopen:deleted");
             return Ok(());
         }
-        let c2 = match self.db.open_collection(COLL.to_string(), async |_| Ok(())).await {
+        let c2 = match self
+            .db
+            .open_collection(COLL.to_string(), async |c| {
+                c.create_btree_index_nx(&["a"]).await?;
+                c.create_bm25_index_nx(&["txt"]).await?;
+                Ok(())
+            })
+            .await
+        {
             Ok(c) => c,
             Err(e) => {
                 self.fail("reopen:failed", "reopening the collection after the case failed", "Ok", &format!("{e:?} (old handle {})", state_name(st)));
@@ -558,7 +636,15 @@ impl World {
                 .collect();
             let exp = by_a.get(&v).cloned().unwrap_or_default();
             if got != exp {
-                self.fail("reopen:index-vs-docs", "after reopen the B-tree index on `a` disagrees with the stored documents", &format!("a={v}: {exp:?}"), &format!("{got:?}"));
+                let key = if self.slots.iter().any(|s| s.api == "open_cb" && s.dropped) {
+                    "reopen:index-vs-docs:dropped-open-callback"
+                } else if self.slots.iter().any(|s| s.api == "open_cb_fail") {
+                    "reopen:index-vs-docs:failed-open-callback"
+                } else {
+                    "reopen:index-vs-docs"
+                };
+                self.fail(key, "after reopen the B-tree index on `a` disagrees with the stored documents", &format!("a={v}: {exp:?}"), &format!("{got:?}"));
+                break;
             }
         }
         // a new write is accepted
@@ -571,6 +657,7 @@ impl World {
             Err(e) => self.fail("reopen:add-rejected", "a write on the reopened handle was rejected", "Ok", &format!("{e:?}")),
         }
         // the old handle is still silent
+        self.take_acts();
         if st != CollectionState::Active {
             let before = list_prefix(&self.mem).await;
             let old = self.coll.clone();
@@ -596,8 +683,9 @@ struct CaseOut {
     nontrivial: bool,
     hist: BTreeMap<String, u64>,
     polls: usize,
-    /// polls the first slot needed to complete (probe runs)
+    /// polls the first / second slot needed to complete (probe runs)
     first_slot_polls: usize,
+    second_slot_polls: usize,
 }
 
 async fn run_case(ops: &[String]) -> Result<CaseOut, String> {
@@ -613,8 +701,20 @@ async fn run_case(ops: &[String]) -> Result<CaseOut, String> {
             ["op", api] => {
                 w.spawn(api)?;
             }
+            ["call", api] => {
+                let i = w.spawn(api)?;
+                w.run(i).await?;
+            }
             ["poll", i] => {
                 w.poll(i.parse().map_err(|_| "bad slot")?).await?;
+            }
+            ["settle"] => {
+                // let every live future finish (two passes: a future may wait for a later one)
+                for _ in 0..3 {
+                    for i in 0..w.slots.len() {
+                        w.run(i).await?;
+                    }
+                }
             }
             ["run", i] => w.run(i.parse().map_err(|_| "bad slot")?).await?,
             ["drop", i] => w.drop_slot(i.parse().map_err(|_| "bad slot")?).await?,
@@ -635,6 +735,7 @@ async fn run_case(ops: &[String]) -> Result<CaseOut, String> {
         }
     }
     let first_slot_polls = w.slots.first().map(|s| s.polls).unwrap_or(0);
+    let second_slot_polls = w.slots.get(1).map(|s| s.polls).unwrap_or(0);
     Ok(CaseOut {
         nontrivial: w.total_muts > 0 && (w.rejected > 0 || w.drops > 0),
         lines: std::mem::take(&mut w.lines),
@@ -642,6 +743,7 @@ async fn run_case(ops: &[String]) -> Result<CaseOut, String> {
         hist: std::mem::take(&mut w.hist),
         polls: w.polls,
         first_slot_polls,
+        second_slot_polls,
     })
 }
 
@@ -700,7 +802,13 @@ fn check_case(rt: &tokio::runtime::Runtime, name: &str, ops: &[String], model: &
     }
     if record {
         for f in &out.fails {
-            rep.oracle_failure(&f.key, &f.what, ops, &f.expected, &f.observed);
+            // one replay per failing call shape (key); repeats are only counted, so that a second, different
+            // failure can never be pushed out of the report by many instances of the first
+            if rep.oracle_failures.iter().any(|o| o["key"].as_str() == Some(f.key.as_str())) {
+                rep.hit(&format!("oracle_repeat:{}", f.key));
+            } else {
+                rep.oracle_failure(&f.key, &f.what, ops, &f.expected, &f.observed);
+            }
         }
         for (k, v) in &out.hist {
             rep.hit_n(k, *v);
@@ -715,23 +823,29 @@ const SETUPS: [&str; 3] = ["setup 3 0 0", "setup 3 1 0", "setup 4 1 1"];
 
 fn gen_random(r: &mut Rng) -> Vec<String> {
     let mut ops = vec![r.pick(&SETUPS).to_string()];
-    let inflight = ["add", "update:2", "remove:2", "save_ext", "remove_ext", "flush", "compact_btree", "reconcile"];
+    // one future per lock class at a time: a future parked on an inner lock (per-document stripe, extension gate)
+    // *after* admission is indistinguishable, from outside, from one parked on the operation gate
+    let mut classes: Vec<Vec<&str>> = vec![vec!["add"], vec!["update:1"], vec!["remove:2"], vec!["save_ext", "remove_ext"], vec!["flush", "compact_btree", "compact_bm25", "reconcile"]];
     let transitions = ["close", "delete_collection", "close_collection", "setro1", "dbro1", "poison"];
     let n_before = r.usize(3); // 0..2 operations in flight before the transition
     let mut live: Vec<usize> = vec![];
     let mut next = 0usize;
     for _ in 0..n_before {
-        // distinct document ids so that no two futures park on the same per-document lock
-        let api = *r.pick(&inflight);
-        if ops.iter().any(|o| o.ends_with(api) && api.contains(':')) {
-            continue;
+        if classes.is_empty() {
+            break;
         }
+        let ci = r.usize(classes.len());
+        let cl = classes.remove(ci);
+        let api = *r.pick(&cl);
         ops.push(format!("op {api}"));
         for _ in 0..r.usize(4) {
             ops.push(format!("poll {next}"));
         }
         live.push(next);
         next += 1;
+    }
+    if r.chance(1, 12) {
+        ops.push(format!("fault {}", r.pick(&["ids.cbor", "meta.cbor", ".cbor"])));
     }
     match *r.pick(&transitions) {
         "setro1" => ops.push("setro 1".into()),
@@ -755,10 +869,12 @@ fn gen_random(r: &mut Rng) -> Vec<String> {
     }
     // 0..2 operations queued behind the transition
     for _ in 0..r.usize(3) {
-        let api = *r.pick(&inflight);
-        if ops.iter().any(|o| o.ends_with(api) && api.contains(':')) {
-            continue;
+        if classes.is_empty() {
+            break;
         }
+        let ci = r.usize(classes.len());
+        let cl = classes.remove(ci);
+        let api = *r.pick(&cl);
         ops.push(format!("op {api}"));
         if r.chance(1, 2) {
             ops.push(format!("poll {next}"));
@@ -787,6 +903,7 @@ fn gen_random(r: &mut Rng) -> Vec<String> {
     for i in order {
         ops.push(format!("run {i}"));
     }
+    ops.push("settle".into());
     ops.push("sweep".into());
     if r.chance(1, 2) {
         ops.push("setro 0".into());
@@ -867,12 +984,34 @@ fn main() {
                 ops.push("setro 0".into());
                 ops.push("dbro 0".into());
                 ops.push("sweep".into());
+                // … and the lifecycle calls themselves on the retained handle
+                ops.push("call close".into());
+                ops.push("call flush".into());
+                ops.push("call close_collection".into());
+                ops.push("call add".into());
                 ops.push("reopen".into());
                 cases.push((format!("transition:{tr}"), ops));
             }
         }
+        // (D) the `&mut self` index methods inside the open callback, dropped at every poll count
+        for setup in setups {
+            let probe: Vec<String> = [*setup, "op close_collection", "run 0", "op open_cb", "run 1"].iter().map(|s| s.to_string()).collect();
+            let n = match exec(&rt, &probe) {
+                Ok(Ok(o)) => o.second_slot_polls,
+                _ => 12,
+            };
+            rep.hit_n("polls-to-complete:open_cb", n as u64);
+            for k in 0..=n {
+                let mut ops: Vec<String> = [*setup, "op close_collection", "run 0", "op open_cb"].iter().map(|s| s.to_string()).collect();
+                ops.extend((0..k).map(|_| "poll 1".to_string()));
+                ops.push("drop 1".into());
+                ops.push("sweep".into());
+                ops.push("reopen".into());
+                cases.push((format!("cancel:open_cb:{k}"), ops));
+            }
+        }
         // (C) random interleavings
-        let n = args.budget(1500, 60000);
+        let n = args.budget(1500, 300000);
         for i in 0..n {
             let mut r = Rng::for_case(args.seed, i);
             cases.push((format!("gen{i}"), gen_random(&mut r)));
@@ -894,11 +1033,7 @@ fn main() {
             if let Ok(Ok(o)) = exec(&rt, &small)
                 && let Some(f) = o.fails.iter().find(|f| f.key == key)
             {
-                rep.oracle_failures.truncate(before);
-                rep.oracle_failure(&f.key, &f.what, &small, &f.expected, &f.observed);
-                if let Some(last) = rep.oracle_failures.last_mut() {
-                    last["case"] = json!(name);
-                }
+                rep.oracle_failures[before] = json!({"key": f.key, "what": f.what, "ops": small, "expected": f.expected, "observed": f.observed, "case": name});
             }
         }
         if rep.samples.len() < 4 && (name.starts_with("gen") || name.starts_with("cancel:update")) {
